@@ -39,7 +39,7 @@ def plan(tier, seed):
     shards = []
     n = 16 if q else 64
     for i in range(n):
-        shards.append({"kind": "hist", "n": 55 if q else 500, "slot": i})
+        shards.append({"kind": "hist", "n": 80 if q else 700, "slot": i})
     return shards
 
 
@@ -207,7 +207,7 @@ class History:
         return out
 
     def case(self, extra=None):
-        d = {"net": self.netcode, "puzzles": [p.brief() for p in self.puzzles], "hash_type": self.hash_type, "steps": self.log,
+        d = {"net": self.netcode, "coord": getattr(self, "coord", None), "puzzles": [p.brief() for p in self.puzzles], "hash_type": self.hash_type, "steps": self.log,
              "compressed": [p.compressed for p in self.puzzles]}
         d.update(extra or {})
         return d
@@ -456,14 +456,16 @@ def networks_for_slot(slot):
 def run_shard(spec, rec):
     from pycoin.networks.registry import network_for_netcode
     rec.require("Tx.is_solution_ok", "input_validated_both")
-    rng = shard_rng(spec["seed"], PROPERTY, spec["tier"], spec["shard"])
     keys = G.Keys(24)
     core, o1, o2 = networks_for_slot(spec["slot"] + spec["seed"])
     plan_nets = [core] * 6 + [o1, o2]
     for k in range(spec["n"]):
         code = plan_nets[k % len(plan_nets)]
         net = network_for_netcode(code)
+        # every history has its own generator, so a stored case can be re-run exactly from its coordinates
+        rng = shard_rng(spec["seed"], PROPERTY, spec["tier"], spec["shard"], salt=k)
         h = History(rec, net, code, rng, keys)
+        h.coord = [spec["seed"], spec["tier"], spec["shard"], k]
         try:
             h.run()
         except Exception as e:          # harness or library crash: make it visible with the history that caused it
@@ -474,17 +476,15 @@ def run_shard(spec, rec):
 
 
 def replay_case(case, rec):
-    """histories are regenerated from their seed coordinates by re-running the shard; a stored case documents the history.
-    Replay re-executes the same network with a fresh deterministic search for the same mechanism."""
+    """re-run exactly the stored history: its generator is a function of (seed, tier, shard, k)"""
     from pycoin.networks.registry import network_for_netcode
-    import random
     keys = G.Keys(24)
     net = network_for_netcode(case["net"])
-    for s in range(400):
-        h = History(rec, net, case["net"], random.Random("replay:%d" % s), keys)
-        try:
-            h.run()
-        except Exception as e:
-            rec.violation("history.crash.%s" % type(e).__name__, h.case(), repr(e), "no exception")
-        if rec.viol_count:
-            break
+    seed, tier, shard, k = case["coord"]
+    h = History(rec, net, case["net"], shard_rng(seed, PROPERTY, tier, shard, salt=k), keys)
+    h.coord = case["coord"]
+    try:
+        h.run()
+    except Exception as e:
+        rec.violation("history.crash.%s" % type(e).__name__, h.case(), repr(e), "no exception")
+    rec.note("history replayed: %s" % h.log)
